@@ -316,7 +316,7 @@ def check_c07(tier, seed, replay=None, selftest=False):
 @reg("C03")
 def check_c03(tier, seed, replay=None, selftest=False):
     def mk(rng, tier):
-        return merge_jobs(gen_aes.xts_jobs(rng, 48 if tier == "quick" else 0, full=(tier != "quick")))
+        return merge_jobs(gen_aes.xts_jobs(rng, 48 if tier == "quick" else 0, full=(tier != "quick"), maxlen=True))
     return aes_check("C03", tier, seed, replay, mk,
                      "one evaluation = one XTS call (family x key size x direction x raw/expanded x length x placement); lengths 16..1055 "
                      "(every tail of the by-8 / by-16 loops with and without stealing) + 4 KiB/64 KiB, and lengths 0..15 for the no-touch clause; "
@@ -606,7 +606,7 @@ def legacy_agreement(chk, seed, tier):
     aj = {}
     aj.update(gen_aes.gcm_oneshot_behaviours(rng, 14 * k, fams=api))
     aj.update(gen_aes.gcm_stream_jobs(rng, 3 * k, fams=api))
-    aj.update(gen_aes.xts_jobs(rng, 8 * k, fams=api))
+    aj.update(gen_aes.xts_jobs(rng, 8 * k, fams=api, maxlen=True))
     cj = gen_aes.cbc_jobs(rng, 4 * k)
     aj.update({n: b for n, b in cj.items() if "-isal-" in n or "-legacy-" in n})
     kj = gen_aes.kexp_jobs(rng, 3 * k)
